@@ -313,6 +313,7 @@ Lemma env_join_rel e1 e2 av eids hs k ms : env_rel e1 e2 ->
 Proof.
   intros H. unfold env_join. rewrite (join_ok_rel e1 e2 k ms H), (all_registered_rel e1 e2 ms H).
   destruct (join_ok e2 k ms); cbn [negb]; [|cbn [fst snd]; auto].
+  destruct (handles_ok hs k ms); cbn [negb]; [|cbn [fst snd]; auto].
   destruct (forallb (m_registered e2) ms); cbn [negb]; [|cbn [fst snd]; split; [reflexivity | apply env_rel_fail; assumption]].
   assert (forall keys,
     snd (let '(e1', r) := visit_keys av hs (is_lending k) eids ms keys e1 in (consume_cs ms e1', JItems r)) =
